@@ -295,6 +295,19 @@ def _na_body(kind, mask, n, fi, named):
     if not H.same_list(list(v), vl): return H.fail('input changed')
     why = H.truthful(filled) or H.truthful(dropped)
     if why: return H.fail(why)
+    # a vector that is declared nullable but holds no None any more (a mask / slice of a nullable vector): fill and drop still report non-nullable
+    if any(mask[:n]) and n:
+        keepbits = [not m for m in mask[:n]]
+        w = v[keepbits]
+        if len(w):
+            x2 = FILL[kind][fi % len(FILL[kind])]
+            try:
+                f2 = w.fillna(x2); d2 = w.dropna()
+            except Exception as e:
+                return H.fail('fillna/dropna on a None-free selection of %r raised %r' % (vl, e))
+            if f2.schema() is not None and f2.schema().nullable: return H.fail('fillna(%r) on %r (a None-free selection of a nullable vector) reports nullable: %r' % (x2, list(w), f2.schema()))
+            if d2.schema() is not None and d2.schema().nullable: return H.fail('dropna on a None-free selection reports nullable')
+            if len(f2) != len(w) or len(d2) != len(w): return H.fail('fill/drop changed a None-free vector')
     # fillna(None) is the identity on contents
     same = v.fillna(None)
     if not H.same_list(list(same), vl): return H.fail('fillna(None) changed contents')
